@@ -83,6 +83,18 @@ def t_phase_fraction(sess, n_grains, phase):
             n0 = len(dlog)
             rhs = s.fun(t, y.copy())
             out[name] = (rhs, dlog[n0:], s)
+            if name == "own_first":
+                # the SAME parameter dictionary object edited in place (e.g. a fraction sweep) and reused, with the same
+                # mineral and with a fresh one: the new fraction must be used (no memoised / shared state)
+                psi = real("psi")
+                sym.ctx().assume(z3.And((psi > 0).z3(), (psi <= 1).z3()))
+                params["phase_fractions"] = (psi, 1 - psi)
+                for label, mm in (("same mineral", m), ("fresh mineral", mh.make_mineral(N, own, fabric, Rg.matrix_dislocation)[0])):
+                    mm.update_orientations(params, quat.symmat("F"), lambda t_, x: Lf(t_, x), (real("t0"), real("t1"), lambda t_: Xf(t_, None)))
+                    s2 = log[-1]
+                    n1 = len(dlog)
+                    s2.fun(t, y.copy())
+                    out[f"reused dict, {label}"] = (None, dlog[n1:], s2, psi)
         return phi, out
 
     with mh.env(plan, log, derivatives=mh.deriv_stub_factory(dlog, N)):
@@ -100,6 +112,11 @@ def t_phase_fraction(sess, n_grains, phase):
         phi, out = p.value
         if not reached:
             reached = sess.satisfiable(f"{tag}: reach", p.pc + [(phi < 1).z3()]).verdict == "sat"
+        reused = {k_: out.pop(k_) for k_ in list(out) if k_.startswith("reused dict")}
+        for label, (_, calls_r, _, psi) in reused.items():
+            if calls_r:
+                sess.prove(f"{pt}: [{label}] after editing the fractions of the same parameter dictionary in place, the new fraction is used", p.pc,
+                           eq(calls_r[0]["volume_fraction"], psi))
         ncalls = {len(v[1]) for v in out.values()}
         if len(ncalls) != 1:
             sess.prove(f"{pt}: all assemblage configurations reach the CPO solver equally often (else infeasible)", p.pc, z3.BoolVal(False))
